@@ -1,12 +1,12 @@
 #!/bin/bash
 # tools/verify_seed.sh Cxx [--suite]   : confirm a sub-agent's seeded change in a fresh scratch worktree:
 #   demo passes without the patch, fails with it; with --suite also run the repository's whole suite with the patch applied.
-id=$1; src=/tmp/seed_$id; wt=/tmp/vs_$id
+id=$1; src=${SEED_SRC:-/tmp/seed_$id}; wt=/tmp/vs_$id
 export DO_NOT_TRACK=true LOG_PATH=false
 git -C /repo worktree remove --force $wt 2>/dev/null
 git -C /repo worktree add -q --detach $wt HEAD || exit 2
 cp $src/seeded_patch.diff $src/demo_seeded.py $wt/ || exit 2
-sed -i "s#/tmp/seed_$id#$wt#g" $wt/demo_seeded.py   # some demonstrations assert the path they were written in
+sed -i "s#$src#$wt#g" $wt/demo_seeded.py   # some demonstrations assert the path they were written in
 cd $wt
 PYTHONPATH=$wt timeout 300 /venv/bin/python demo_seeded.py > demo_without.log 2>&1; r0=$?
 git apply seeded_patch.diff || { echo "$id patch does not apply"; exit 2; }
